@@ -152,7 +152,7 @@ Definition r_step_out (r : rstate) : rres bool :=
   | (b, Ok _) =>
     let r := rs_bits r b in
     (rs_eof (rs_ctx (r_clear r) (tl (r_ctx r))) false, Ok true)
-  | (b, Err) => (rs_bits r b, Ok false)            (* error returned, r.err not set *)
+  | (b, Err) => (rs_err (rs_bits r b) true, Ok false)    (* r.err = err *)
   | (b, Panic) => (rs_bits r b, Panic)
   | (b, OutOfFuel) => (rs_bits r b, OutOfFuel)
   end.
